@@ -254,15 +254,14 @@ def mirror_matrix(normal: VectorType):
 def mirror(point: PointType, normal: VectorType, origin: PointType):
     """Mirror a point around a plane, given by a normal and origin"""
     # brainlessly copied from https://gamemath.com/book/matrixtransforms.html
-    point = np.asarray(point)
+    point = np.asarray(point, dtype=constants.DTYPE)
     normal = unit_vector(normal)
-    origin = np.asarray(origin)
+    origin = np.asarray(origin, dtype=constants.DTYPE)
 
-    point -= origin
-    rotated = point.dot(mirror_matrix(normal))
-    rotated += origin
+    # do not modify the caller's array
+    rotated = (point - origin).dot(mirror_matrix(normal))
 
-    return rotated
+    return rotated + origin
 
 
 def point_to_plane_distance(origin: PointType, normal: VectorType, point: PointType) -> float:
